@@ -54,6 +54,29 @@ pub fn run(sc: &Value, id: usize, out: Out) {
         }
         steps
     });
+    // --- PolyhedraGen::with_root from every non-root node (no skips): items and path conditions relative to the start node
+    let subs: Vec<Value> = t.tree.node_indices().filter(|i| *i != t.tree.get_root_idx()).map(|start| {
+        let skip_edges = t.tree.path_to_node(start).map(|p| p.len()).unwrap_or(0);
+        let r = guarded(|| {
+            let mut steps: Vec<Value> = Vec::new();
+            let mut it = affinitree::pwl::iter::PolyhedraGen::with_root(&t.tree, start);
+            let mut guard = 0;
+            while let Some((d, ps)) = it.next(&t.tree) {
+                // scale back: the j-th reported polytope belongs to the (skip_edges + j)-th edge of the node's root path
+                let path = t.tree.path_to_node(d.index).unwrap_or_default();
+                let ups: Vec<affinitree::linalg::affine::Polytope> = ps.iter().enumerate().map(|(j, p)| {
+                    let e = path.get(skip_edges + j).and_then(|(n, _)| exps.get(n)).cloned().unwrap_or(0);
+                    let f = 2f64.powi(-e);
+                    affinitree::linalg::affine::Polytope::from_mats(&p.mat * f, &p.bias * f)
+                }).collect();
+                steps.push(json!({"call": "n", "item": {"none": false, "depth": d.depth, "idx": d.index, "rem": d.n_remaining}, "polys": polys_json(&ups, q)}));
+                guard += 1;
+                if guard > 10_000 { break; }
+            }
+            steps
+        });
+        match r { Ok(s) => json!({"start": start, "res": "ok", "steps": s}), Err(_) => json!({"start": start, "res": "panic", "steps": []}) }
+    }).collect();
     // --- PolyhedraIter (polyhedra_iter()) with size_hint after every call
     let iter_run = guarded(|| {
         let mut steps: Vec<Value> = Vec::new();
@@ -109,5 +132,5 @@ pub fn run(sc: &Value, id: usize, out: Out) {
     out(json!({"fam": "regions", "sc": id, "first": true, "k": 2, "q": q as i64, "tree": tj, "sched": sched, "den": den,
                "gen": match gen_run { Ok(s) => json!({"res": "ok", "steps": s}), Err(_) => json!({"res": "panic", "steps": []}) },
                "iter": match iter_run { Ok(v) => json!({"res": "ok", "run": v}), Err(_) => json!({"res": "panic", "run": {"hint0": [0, -1], "steps": []}}) },
-               "finds": finds}));
+               "subs": subs, "finds": finds}));
 }
